@@ -4,6 +4,7 @@ CONSTANTS
   Depth = 1
   Width = 1
   Rich = FALSE
+  TruncAll = TRUE
   MaxChunks = 2
   ChunkLens = {0, 1, 3}
 INVARIANTS InBounds DataIsSlice
